@@ -453,6 +453,10 @@ TYPE_WEIGHTS = {
 def _mk_joint(rng, idx, jt, parent, child):
     j = {"name": f"j{idx}", "parent": parent, "child": child, "origin": _origin(rng), "axis": None, "axis_class": None,
          "limit": bool(rng.random() < 0.5), "nconf": 0}
+    # the joint range a robot description carries (the importer places links where they are REQUESTED; ranges are for
+    # controllers): wide, a realistic narrow range, one-sided, or the 0/0 placeholder
+    j["limit_range"] = [(-100.0, 100.0), (-float(rng.uniform(0.2, 2.0)), float(rng.uniform(0.2, 2.0))),
+                        (0.0, float(rng.uniform(0.1, 1.5))), (0.0, 0.0)][int(rng.integers(4))]
     if jt in ("floating6", "floating7"):
         j["type"] = "floating"
         j["nconf"] = 6 if jt == "floating6" else 7
@@ -652,7 +656,8 @@ def urdf_text(tree, files):
         if j["axis"] is not None:
             s += f'    <axis xyz="{_v(j["axis"])}"/>\n'
         if j["limit"] and j["type"] in ("revolute", "prismatic"):
-            s += '    <limit lower="-100.0" upper="100.0" effort="10.0" velocity="5.0"/>\n    <dynamics damping="0.0" friction="0.0"/>\n'
+            lo_, up_ = j.get("limit_range", (-100.0, 100.0))
+            s += f'    <limit lower="{lo_!r}" upper="{up_!r}" effort="10.0" velocity="5.0"/>\n    <dynamics damping="0.0" friction="0.0"/>\n'
         s += "  </joint>\n"
     return s + "</robot>\n"
 
